@@ -21,7 +21,8 @@ func init() {
 		Rule: "N in 1..6 threads each Call 1..3 times with unique argument blocks on one CurryDef; fn logs the argument list it receives, yields, returns a value derived from it; MarkDone is called from inside fn at the k-th " +
 			"invocation or from another thread at a tape-chosen point; oracle: invocation argument lists form a chain extending by exactly one whole block, consistent with the real-time order of the Calls, at most one invocation per Call " +
 			"(exactly one if it returned before MarkDone was invoked), none for Calls begun after MarkDone returned, Result equals the last invocation's value and stays; " +
-			"non-trivial = >=2 Calls overlapped; distinct = distinct context-switch signature. Pure clauses of C20 are out of scope (see level_note).",
+			"non-trivial = >=2 Calls overlapped; distinct = distinct context-switch signature. Pure clauses of C20 are out of scope (see level_note)." +
+			" In a third of the runs the pure clauses are evaluated from inputs on the same tape (harness/c20_pure.go): Compose/Pipe over 1..6 distinguishable functions incl. regrouping and caller-owned slices, CurryParamN/MakeVariadic* adapters, Trampoline with/without an error, MatchFor (one reused matcher) and Either over pattern permutations x 14 probe values incl. a non-compiling regex rule and a panicking effect, NewCompData incl. nested sums - input generation, not simulation.",
 		Real:        []string{"fpgo.CurryDef (Call, MarkDone, IsDone, Result; callM mutex probed)"},
 		Stub:        []string{"goroutine scheduler", "the curried function fn"},
 		Assumptions: []string{"Compose/Pipe, CurryParamN/MakeVariadic*, Trampoline, MatchFor/Either and NewCompData are pure functions of their inputs and are not decided by simulation; a change breaking only those clauses is invisible to this check"},
